@@ -51,7 +51,7 @@ Fixpoint distinct_names (l : list string) : bool :=
 
 (* heuristic 3 of full_simplify: every group target it constructs has integer exponents *)
 Definition h3_ints_b (tbl : table Qc) (res : resolved (T := Qc)) (keys : list skey) (gs : list (list ufactor)) : bool :=
-  forallb (fun g => match h3_group QcN tbl res keys g with Ok (t, _) => unit_int t | Err _ => true end) gs.
+  forallb (fun g => match h3_group QcN tbl res keys g with Ok (Some (t, _)) => unit_int t | _ => true end) gs.
 
 (* ---------------------------------------------------------------- printing *)
 Definition show_pfx (p : prefix) : string :=
